@@ -207,7 +207,8 @@ def run_shard(spec, ctx):
                 elif k < len(toks):
                     check_text(ctx, " ".join(toks[:k] + [t] + toks[k + 1:]), deep=False)
     elif kind == "noise":
-        alpha = list("abxyfn01_.'\"\\/#<>=!*+-%()[],; \n\r\t") + ["é", "日", "\x00", "do", "end", "def", "//", "\\x"]
+        alpha = list("abxyfn01_.'\"\\/#<>=!*+-%()[],; \n\r\t") + ["é", "日", "\x00", "do", "end", "def", "//", "\\x",
+                                                                   "²", "①", "٣", "１", "½", "\u2028", "\x0c", "\ufeff", "0x", "1.", "e"]
         g = syntax.SyntaxGen(r, max_depth=3)
         for i in range(spec["n"]):
             if i % 2 == 0:
@@ -230,7 +231,11 @@ def run_shard(spec, ctx):
     elif kind == "nest":
         opens = [("(", ")"), ("[", "]"), ("<<", ">>"), ("<<<1 => ", ">>>"), ("do ", " end"),
                  ("fn() ", ""), ("f(", ")"), ("- ", ""), ("not (", ")"), ("[1, ", "]"),
-                 ("if TRUE then (", ")"), ("x[", "]"), ("<* a = ", " *>"), ("(1 + ", ")")]
+                 ("if TRUE then (", ")"), ("x[", "]"), ("<* a = ", " *>"), ("(1 + ", ")"),
+                 ("for v in values x do ", " end"), ("for k in keys m do ", " end"), ("for e in entries m do ", " end"),
+                 ("for v in values do ", " end"), ("while a do ", " end"), ("if a then ", ""), ("def f() ", ""),
+                 ("[x for x in ", "]"), ("<<x for x in keys ", ">>"), ("do ", " catch all 1 end"), ("f(a = ", ")"),
+                 ("x !> f(", ")"), ("not ", ""), ("1 is not ", ""), ("<<<'k' => ", ">>>"), ("s('{", "}')"), ("a->", "")]
         for d in range(1, 41):
             for o, c in opens:
                 check_text(ctx, o * d + "1" + c * d)
